@@ -794,6 +794,38 @@ class SAgg:
         self.kind, self.shape, self.pred, self.val = kind, tuple(shape), pred, val
 
 
+def count_term(ex, agg, st):
+    """An integer for a COUNT reduction: c = #{p in box : pred(p)}, known through
+      0 <= c <= size of the box;   c == 0  <=>  no p in the box has pred(p);
+      two counts over boxes of the same shape whose predicates agree pointwise are equal
+    (the last is lemma L-sum; it is what links the count the code compares with the count a
+    postcondition speaks about)."""
+    for a, t in st.count_aggs:        # (aggregate, its integer on this path)
+        if a is agg:
+            return t
+    uid = next(_bv)
+    c = fresh_int(f'count{uid}')
+    nd = len(agg.shape)
+    vs = [z3.Int(f'bv!cn{uid}_{d}') for d in range(nd)]
+    inb = _in_box(vs, agg.shape)
+    size = num_term(agg.shape[0])
+    for d in agg.shape[1:]:
+        size = size * num_term(d)
+    st.fact(z3.And(c >= 0, c <= size))
+    pv = to_bool(agg.pred(tuple(vs)))
+    st.fact(z3.Implies(c == 0, z3.ForAll(vs, z3.Implies(inb, z3.Not(pv)))))
+    st.fact(z3.Implies(z3.ForAll(vs, z3.Implies(inb, z3.Not(pv))), c == 0))
+    for other, oterm in st.count_aggs:
+        if len(other.shape) != nd:
+            continue
+        same_shape = z3.And(*[num_term(x) == num_term(y) for x, y in zip(other.shape, agg.shape)])
+        po = to_bool(other.pred(tuple(vs)))
+        st.fact(z3.Implies(z3.And(same_shape, z3.ForAll(vs, z3.Implies(inb, po == pv))),
+                           oterm == c))
+    st.count_aggs.append((agg, c))
+    return c
+
+
 def np_count_nonzero(ex, args, kw, st):
     v = args[0]
     if isinstance(v, SArr):
